@@ -40,12 +40,22 @@ RULE = ('one case = one public call (estimator function or analyzer attribute) r
         'window absent / array / list / float32 / function, prefer_speed_over_memory, scale_by_freq, data shorter than NFFT, explicit Fs in the method dict vs another '
         'series rate in s/ms/us) and bands with explicit 0 / None, edges on a bin and 1 ulp below / above it on grids that are exact in binary64, ub on / above Nyquist. '
         'A call of the new families that raises returns no frequency vector and is not judged (counted in the stats). '
+        '(7) round 2, failure paths and aliasing: (a) ONE CoherenceAnalyzer (welch) / SparseCoherenceAnalyzer through 12 session patterns of set_input calls with series the class may refuse '
+        '(1-d, a channel of ij missing, shorter than NFFT), a good series of another rate / unit, the SAME TimeSeries object after its data changed in place, a reversed and a row-strided view, '
+        'reset(), with and without a caller-fixed Fs, on the analyzer itself or on a copy.copy of it (the original is read at the end); every exception is caught, vars() and the method dict are '
+        'compared across a refused call, every frequency vector handed out is kept and judged at the end against the true grid of the input ACTUALLY HELD, spectral values against a fresh analyzer on that input; '
+        '(b) every other analyzer with a set_input x the 7 candidate kinds; (c) Coherence / Sparse / Seed constructors with arguments they may refuse (1-d, one channel, unknown / missing this_method, '
+        'seed and target rates differ) given a CALLER\'s method dict, which is compared and then used for a proper analyzer; (d) get_spectra / cache_fft refused (unknown this_method, window of the wrong '
+        'length, lb > ub, non-integer NFFT), then called properly with the same dict and data. '
         'distinct = distinct protocol line (site, Fs, N, band); non-trivial = N >= 3')
 ASSUMPTIONS = ['Fs > 0 finite; N >= 2; the frequency vector is compared with the exact rational grid at 4 ulp per entry',
                'np.pi is represented in the exact runs by a 40-digit rational (theorems hold for any value of pi)',
                'mlab.psd/csd frequency vector = k*Fs/NFFT (contract, monitored: the Welch paths are compared with the true grid by the oracle on every run)',
                'analyzer cases use sampling intervals whose rate 1e12/dt_ps is an exactly representable double, or sampling_rate= given directly']
-TRUSTED_EXTRA = ['harness/translate_c05.py gen_lens: symbolic execution of the estimators up to the statement that builds the grid (which assignments / tests / calls are understood is '
+TRUSTED_EXTRA = ['harness/translate_c05.py gen_setinput: which statements of set_input / __init__ are a possible raise (a `raise` under a condition, a call of a method of the class whose body contains a raise), a reset(), '
+                 'a write of self.input / self.method[\'Fs\'] (or the rebinding self.method = dict(self.method, Fs=…)); local bindings are skipped, anything else is .unknown and the theorems stop checking -> Generated/SetInput.lean; '
+                 'that an exception ends the body with the state reached so far, and that every Fs-dependent getter of Coherence/SparseCoherenceAnalyzer reads method[\'Fs\'] (Nitime/Model/CohSession.lean), is monitored by the `sess` / `ctor` correspondence',
+                 'harness/translate_c05.py gen_lens: symbolic execution of the estimators up to the statement that builds the grid (which assignments / tests / calls are understood is '
                  'listed in its header; anything else becomes .bad and the theorem stops checking) -> Generated/GridLens.lean; that fft(x, n=L) returns L points and that reshape / rollaxis '
                  'of the forms recognised keep the last axis is trusted numpy semantics, monitored by the `gridx` correspondence',
                  'harness/translate_c05.py: AST -> GridExpr for each site (echoed in the evidence); which expression of a function is "the" frequency vector is fixed there',
@@ -791,6 +801,12 @@ def run_fail(m):
 def run_sess(m):
     name, mA = m['site'], dict(m['base'])
     A = an_build(name, mA)
+    A0 = None
+    if m.get('shallow'):
+        # L8: the session runs on a SHALLOW COPY of the analyzer (copy.copy shares the method dict and every other
+        # container with the original); the original, never re-targeted, must go on reporting its own input's axis
+        import copy
+        A0, A = A, copy.copy(A)
     inputs, metas = [A.input], [mA]
     reads, seen, changed, val_bad, nraise = [], [], [], [], 0
     for ev in m['events']:
@@ -845,7 +861,13 @@ def run_sess(m):
             except Exception:  # noqa -- a result that cannot be computed on a degenerate input that was ACCEPTED: not judged
                 SKIPPED['sess-read'] = SKIPPED.get('sess-read', 0) + 1
     views = [(hid, snap, snapshot(obj)) for hid, obj, snap in reads]
-    return {'views': views, 'metas': metas, 'seen': seen, 'changed': changed, 'val_bad': val_bad, 'nraise': nraise}
+    out = {'views': views, 'metas': metas, 'seen': seen, 'changed': changed, 'val_bad': val_bad, 'nraise': nraise}
+    if A0 is not None:
+        try:
+            out['orig'] = snapshot(an_freq(name, A0, mA)[0])
+        except Exception as e:  # noqa
+            out['orig'] = 'err ' + err_kind(e)
+    return out
 
 
 CTOR_KINDS = {'C': ('1d', 'bad-this-method'), 'P': ('bad-this-method', 'no-this-method', '1d', 'few'), 'E': ('rates-differ', 'bad-this-method', '1d')}
@@ -1031,6 +1053,12 @@ def judge_fail(m, res):
             if not same_vec(snap, end) and pre + '/handed-out-vector-changed' not in [k for k, _ in out]:
                 out.append((pre + '/handed-out-vector-changed', '%s: the vector handed out at read #%d read %s… then and reads %s… at the end (events %s)' % (
                     name, i + 1, [float(x) for x in snap[:4]], [float(x) for x in end[:4]], evs)))
+        if res.get('orig') is not None:
+            if isinstance(res['orig'], str):
+                out.append((pre + '/shallow-copy/original-raises', '%s: after a shallow copy of the analyzer went through %s the ORIGINAL raises %s' % (name, evs, res['orig'])))
+            else:
+                for key, what in judge_one(dict(m['base']), (res['orig'], None, None, None), pre + '/shallow-copy/original'):
+                    out.append((key, 'a shallow copy (copy.copy) of the analyzer went through the events %s; the ORIGINAL, still on its first input: %s' % (evs, what)))
         if res['val_bad']:
             b = res['val_bad'][0]
             out.append((pre + '/values-not-of-held-input', '%s: after the events %s the spectral values %s… differ from those of a fresh analyzer on the input held (series #%d): %s…' % (
@@ -1114,7 +1142,10 @@ def gen_sess(rng, name, tier, idx, userfs):
             evs.append({'op': 's', 'cand': gen_cand(rng, mA, t[2:], idx + j)})
         else:
             evs.append({'op': t})
-    return {'call': 'fail', 'fam': 'sess' if name in SESS_CLS else 'setinput', 'site': name, 'base': mA, 'events': evs, 'N': mA['N'], 'n': mA['n']}
+    m = {'call': 'fail', 'fam': 'sess' if name in SESS_CLS else 'setinput', 'site': name, 'base': mA, 'events': evs, 'N': mA['N'], 'n': mA['n']}
+    if idx % 4 == 1 and not any(e['op'] == 's' and e['cand']['kind'] == 'same-changed' for e in evs):
+        m['shallow'] = True
+    return m
 
 
 def gen_ctor(rng, cls, kind, idx):
